@@ -16,7 +16,37 @@ import (
 
 func parserParseExpr(src string) (ast.Expr, error) { return parser.ParseExpr(src) }
 
-func stdlibEffect(callee *ssa.Function, ms *modSet) bool { return false }
+// stdlibEffect: what the modelled standard-library functions change (for loop mod-sets).
+func (e *Exec) stdlibEffect(callee *ssa.Function, ms *modSet) bool {
+	switch calleeFullName(callee) {
+	case "time.Now", "time.Until", "time.Since", "time.NewTicker":
+		ms.ghosts["clock"] = true
+		ms.alloc = true
+		return true
+	case "sync.(*Mutex).Lock", "sync.(*RWMutex).Lock", "sync.(*RWMutex).RLock":
+		// taking a lock re-reads the fields its monitor protects
+		for _, fd := range e.P.CS.Fields {
+			if fd.Mode != "monitor" {
+				continue
+			}
+			var pk *types.Package
+			if sp := e.P.SPkgs[fd.PkgPath]; sp != nil {
+				pk = sp.Pkg
+			}
+			if t := resolveTypeIn(e.P, pk, fd.Type); t != nil {
+				if stt, T := structOf(t); stt != nil {
+					for i := 0; i < stt.NumFields(); i++ {
+						if stt.Field(i).Name() == fd.Field {
+							e.addFieldArrs(ms, T, fd.Field, stt.Field(i).Type())
+						}
+					}
+				}
+			}
+		}
+		return true
+	}
+	return false
+}
 
 func calleeFullName(fn *ssa.Function) string {
 	if fn.Pkg != nil {
